@@ -38,7 +38,7 @@ macro_rules! rt_token_priv {
         #[kani::unwind(34)]
         fn $name() {
             let w: usize = kani::any();
-            kani::assume(w < 256);
+            kani::assume(w < NETCODE_USER_DATA_BYTES);
             reset_ghost(1, 0);
             let t = PrivateConnectToken {
                 client_id: kani::any(),
@@ -94,7 +94,7 @@ macro_rules! rt_token_pub {
         #[kani::unwind(34)]
         fn $name() {
             let w: usize = kani::any();
-            kani::assume(w < 1024);
+            kani::assume(w < NETCODE_CONNECT_TOKEN_PRIVATE_BYTES);
             let t = ConnectToken {
                 client_id: kani::any(),
                 version_info: *NETCODE_VERSION_INFO,
@@ -194,7 +194,7 @@ tok_read_total!(tok_read_total_kmax, u32::MAX, [1, 0, 0, 0, 0, 0, 0, 0, 0, 0, 0,
 #[kani::unwind(36)]
 fn tok_priv_decode_total() {
     reset_ghost(0, 0);
-    let mut data: [u8; 1024] = kani::any();
+    let mut data: [u8; NETCODE_CONNECT_TOKEN_PRIVATE_BYTES] = kani::any();
     // one IPv4 address announced (offsets concrete); everything else arbitrary
     data[12..16].copy_from_slice(&1u32.to_le_bytes());
     data[16] = 1;
@@ -218,4 +218,40 @@ fn tok_witness() {
         assert!(false, "witness");
     }
     std::mem::forget(r);
+}
+
+// =====================================================================================================================
+// CONTRACT function for the netcode-server step lemmas (variant "contracts"; see models/netcode_contracts.rs): the
+// private connect token opens iff it is THE token sealed by the holder of the presented key for exactly this protocol
+// id / expiry / xnonce / ciphertext (ideal AEAD; the binding of those fields into the AEAD tuple is what
+// PrivateConnectToken::{encode, decode} + get_additional_data do - covered by the native token tests of the repo).
+use crate::verif_models::contracts as tct;
+
+impl PrivateConnectToken {
+    pub(crate) fn verif_decode(
+        buffer: &[u8; NETCODE_CONNECT_TOKEN_PRIVATE_BYTES],
+        protocol_id: u64,
+        expire_timestamp: u64,
+        xnonce: &[u8; NETCODE_CONNECT_TOKEN_XNONCE_BYTES],
+        private_key: &[u8; NETCODE_KEY_BYTES],
+    ) -> Result<Self, TokenGenerationError> {
+        unsafe {
+            tct::NTOK_DEC += 1;
+            if tct::TOK && *private_key == tct::TOK_KEY && protocol_id == tct::TOK_PID && expire_timestamp == tct::TOK_EXPIRE && *xnonce == tct::TOK_XNONCE && *buffer == tct::TOK_DATA {
+                tct::TOK_OPENED = true;
+                let mut server_addresses = [None; 32];
+                server_addresses[0] = tct::TOK_ADDR0;
+                server_addresses[1] = tct::TOK_ADDR1;
+                return Ok(PrivateConnectToken {
+                    client_id: tct::TOK_ID,
+                    timeout_seconds: tct::TOK_TIMEOUT,
+                    server_addresses,
+                    client_to_server_key: tct::TOK_C2S,
+                    server_to_client_key: tct::TOK_S2C,
+                    user_data: tct::TOK_UD,
+                });
+            }
+        }
+        Err(TokenGenerationError::CryptoError)
+    }
 }
